@@ -100,3 +100,21 @@ def _make_orchestrator_class():
 
 
 SvOrchestrator = _make_orchestrator_class()
+
+
+def _make_transport_class():
+    from semantiva.execution.transport import InMemorySemantivaTransport
+
+    class SvTransport(InMemorySemantivaTransport):
+        """The existing transport seam: the real in-memory transport plus a fault point in publish()."""
+
+        def publish(self, channel, data, context, metadata=None, require_ack=False):
+            w = _world.WORLD
+            if w is not None:
+                w.fire("transport_publish")
+            return super().publish(channel, data, context, metadata=metadata, require_ack=require_ack)
+
+    return SvTransport
+
+
+SvTransport = _make_transport_class()
